@@ -367,7 +367,7 @@ static void run_chunk(char **av, int ac)
 
 static void child(char *line, int resfd)
 {
-	alarm(30);
+	alarm(8);
 	if (!strncmp(line, "seq ", 4)) run_seq(line + 4);
 	else if (!strncmp(line, "chunk ", 6)) {
 		char *av[8]; int ac = 0; char *save = NULL, *t;
